@@ -1151,7 +1151,9 @@ func (c *Conn) writeRequest(ctx *Ctx) error {
 
 	c.bwLck.Lock()
 
-	_, err := fr.WriteTo(c.bw)
+	// CONTINUATION frames take what does not fit in the server's
+	// SETTINGS_MAX_FRAME_SIZE. bwLck keeps the block together.
+	err := writeHeaderFrames(c.bw, fr, int(atomic.LoadUint32(&c.maxFrameSize)))
 	if err == nil {
 		err = c.bw.Flush()
 	}
